@@ -186,12 +186,12 @@ func (x *Exec) strConst(s string) string {
 		return "str_dot"
 	}
 	if i, ok := x.strs[s]; ok {
-		return fmt.Sprintf("str_%d", i)
+		return fmt.Sprintf("strk_%d", i)
 	}
 	i := len(x.strList)
 	x.strs[s] = i
 	x.strList = append(x.strList, s)
-	return fmt.Sprintf("str_%d", i)
+	return fmt.Sprintf("strk_%d", i)
 }
 
 func (x *Exec) floatConstVal(v constant.Value) string {
@@ -1251,6 +1251,9 @@ func (x *Exec) iterVars(p *Path, env *SpecEnv, head *ssa.BasicBlock) *SpecEnv {
 	}
 	if it, ok := x.iterOf(p, head); ok {
 		env = env.with("idx", term(fmt.Sprintf("(select (CInt %s) %s)", env.H, it.Loc.Cell), SInt))
+		if it.MapT == nil {
+			return env // string iterator: idx is the byte position
+		}
 		env = env.with("ord", term(it.Arr, SOrd))
 		env = env.with("ordn", term(it.Len, SInt))
 		env = env.with("ordpos", term(it.Off, SOrdInv))
